@@ -148,6 +148,7 @@ def gen(rng, tier, i):
         return console(text + '\n')
 
     def say(target, text):
+        if target != 'con' and rng.random() < 0.03: p.cycle('recvintr %d 1' % target)      # the next read of this connection is interrupted (EINTR)
         return cons(text) if target == 'con' else line(target, text)
 
     def new_conn():
